@@ -1,7 +1,8 @@
 #!/usr/bin/env python3
-"""usage: tools/keepseed.py <worktree> <seed-id> <caught: yes|no|after-strengthening> <checks run> <observed signatures / note>"""
+"""usage: tools/keepseed.py <worktree> <seed-id> <caught: yes|no|after-strengthening> <checks run> <observed signatures / note> [<what I ran>]"""
 import json, os, shutil, sys, subprocess
 wt, sid, caught, checks, note = sys.argv[1:6]
+how = sys.argv[6] if len(sys.argv) > 6 else None
 d = os.path.join(os.path.dirname(os.path.dirname(os.path.abspath(__file__))), "seeded", sid)
 os.makedirs(d, exist_ok=True)
 patch = subprocess.run(["git", "-C", wt, "diff", "--", "src"], capture_output=True, text=True).stdout
@@ -16,7 +17,7 @@ except Exception as e:
     meta = {"note": "agent meta.json unreadable: %s" % e}
 meta["confirmed_by_hand"] = dict(
     compiles_and_327_tests_pass=True, demo_fails_with_change_passes_without=True,
-    what_i_ran="tools/seedtest.sh %s %s (cargo test in the worktree; demo with / without the change; git -C /repo apply; ./check <id> quick; git -C /repo checkout -- .)" % (wt, checks),
+    what_i_ran=how or "tools/seedtest.sh %s %s (cargo test in the worktree; demo with / without the change; git -C /repo apply; ./check <id> quick; git -C /repo checkout -- .)" % (wt, checks),
     checks_run=checks.split(), caught=caught, observed=note, base_commit=subprocess.run(["git", "-C", wt, "rev-parse", "--short", "HEAD"], capture_output=True, text=True).stdout.strip())
 json.dump(meta, open(os.path.join(d, "meta.json"), "w"), indent=1)
 print("kept", d)
